@@ -36,10 +36,11 @@ type Config struct {
 
 // FeedCfg describes a live feed started when the world is created.
 type FeedCfg struct {
-	H        int  `json:"h"` // handle that starts it
-	C        int  `json:"c"` // collection index (ignored when Multi)
-	KeysOnly bool `json:"keysOnly,omitempty"`
-	Multi    bool `json:"multi,omitempty"` // started through Bucket.StartDCPFeed with all collections in Scopes
+	H         int  `json:"h"` // handle that starts it
+	C         int  `json:"c"` // collection index (ignored when Multi)
+	KeysOnly  bool `json:"keysOnly,omitempty"`
+	Multi     bool `json:"multi,omitempty"`     // started through Bucket.StartDCPFeed with all collections in Scopes
+	NoDefault bool `json:"noDefault,omitempty"` // Multi: only the named collections, not the default one
 }
 
 var worldSerial int64
